@@ -36,6 +36,18 @@ Theorem C07_record_count : forall nsteps p, 0 <= nsteps -> 0 < p ->
 Proof. exact due_length. Qed.
 Print Assumptions C07_record_count.
 
+(** T2 sharpened: the files ARE the blocks of numrec consecutive records (no empty trailing file when the last
+    one is exactly full; a run of zero steps leaves one empty closed file) *)
+From Ladim Require Import Proofs.SplitLayoutProofs.
+Theorem C07_files_are_chunks : forall (R P : Type) (snap : Z -> R) (pvs : Z -> P) (nsteps p numrec : Z),
+  0 <= nsteps -> 1 <= p -> 1 <= numrec ->
+  map (recs (R:=R) (P:=P)) (files (out_run R P snap pvs nsteps p numrec)) =
+  (if nsteps =? 0 then [[]] else chunk (Z.to_nat numrec) (map snap (due nsteps p))).
+Proof. exact split_files_all_cases. Qed.
+Print Assumptions C07_files_are_chunks.
+Example C07_chunk_ex : chunk 3 [1; 2; 3; 4; 5; 6; 7] = [[1; 2; 3]; [4; 5; 6]; [7]] /\ chunk 3 [1; 2; 3; 4; 5; 6] = [[1; 2; 3]; [4; 5; 6]].
+Proof. vm_compute. split; reflexivity. Qed.
+
 (** non-vacuity: N = 7, p = 3, numrec = 2 gives files (0: steps 0, 3) (1: step 6); and the historical
     defect (num_records = floor) is what a total of 2 would do: an error on the third write *)
 Example C07_ex :
